@@ -6,7 +6,8 @@ recursive template and the `__RECINT_LIMB_SIZE`, `__RECINT_LIMB_SIZE+1` speciali
 `Bn n = 2^(2^(6+n))`, `val` the represented number, `WF` "every limb is below 2^64".  Every theorem is for **every**
 level `n` (no bound on K) and all well-formed operands; carries and borrows are exact (`c2n` reads a `bool` as 0/1).
 -/
-import GivaroModel.Lemmas.RecIntDiv2
+import GivaroModel.Lemmas.RecIntConv
+import GivaroModel.Lemmas.RecIntInvMod
 namespace Givaro.Props.C06
 open Givaro.Model.RecInt
 
@@ -225,18 +226,9 @@ theorem square_exact (t : Nat) {n : Nat} (b : RU n) (hb : WF b) :
 example : ∃ (b c : RU 2) (d : RU 3), WF b ∧ WF c ∧ WF d :=
   ⟨ones 2, ones 2, ones 3, by simp [ones, WF, B64], by simp [ones, WF, B64], by simp [ones, WF, B64]⟩
 
-/-! ### rudiv.h: division by a normalised divisor (both quotient corrections) -/
-/- Full statements (kept visible):
-   div_3_2_exact : ∀ t n (a2 a1 a0 b1 b0 : RU n), WF … → Bn n ≤ 2 * val b1 → val a2 * Bn n + val a1 < val b1 * Bn n + val b0 →
-       (val a2 * Bn n + val a1) * Bn n + val a0 = val q * (val b1 * Bn n + val b0) + (val r1 * Bn n + val r0) ∧ val r1 * Bn n + val r0 < val b1 * Bn n + val b0
-   div_2_1_exact : ∀ t n (ah al b : RU n), WF … → Bn n ≤ 2 * val b → val ah < val b → val ah * Bn n + val al = val q * val b + val r ∧ val r < val b
-   Proved below for every level under the single hypothesis `Div32Limb t` (the `__RECINT_LIMB_SIZE` specialisation of div_3_2, whose
-   second correction is decided by `r >= b`, satisfies the same statement at level 0); what is missing is the kernel-checked proof of
-   that limb-level fact.  The generic template (every level >= 1: estimate by div_2_1 or B-1, first correction, second correction
-   decided by the carry) and div_2_1 (limb base case and recursive step) are proved unconditionally. -/
-
+/-! ### rudiv.h: division -/
 /-- the generic `div_3_2` template at level `m+1` is exact whenever `div_2_1` is at that level: quotient estimate too large by
-    0, 1 or 2, both corrections, `a = q·b + r ∧ r < b` -/
+    0, 1 or 2, both corrections (the second decided by the carry of the add-back), `a = q·b + r ∧ r < b` -/
 theorem div_3_2_generic_exact (t m : Nat)
     (IH21 : ∀ ah al b : RU (m+1), WF ah → WF al → WF b → Bn (m+1) ≤ 2 * val b → val ah < val b → Div21Ok (div_2_1 t ah al b) ah al b)
     (a2 a1 a0 b1 b0 : RU (m+1)) (ha2 : WF a2) (ha1 : WF a1) (ha0 : WF a0) (hb1 : WF b1) (hb0 : WF b0)
@@ -248,21 +240,152 @@ theorem div_3_2_generic_exact (t m : Nat)
 theorem div_2_1_limb_exact (t : Nat) (ah al b : RU 0) (hah : WF ah) (hal : WF al) (hb : WF b) (hlt : val ah < val b) :
     Div21Ok (div_2_1 t ah al b) ah al b := div_2_1_zero t ah al b hah hal hb hlt
 
-/-- `div_3_2` at every level, given the limb-level specialisation -/
-theorem div_3_2_exact_partial (t : Nat) (H0 : Div32Limb t) {n : Nat} (a2 a1 a0 b1 b0 : RU n)
+/-- the `__RECINT_LIMB_SIZE` specialisation of `div_3_2` (second correction decided by `r >= b` on the wrapped remainder);
+    proved for an abstract limb base and instantiated at 2^64 -/
+theorem div_3_2_limb_exact (t : Nat) (a2 a1 a0 b1 b0 : RU 0) (ha2 : WF a2) (ha1 : WF a1) (ha0 : WF a0) (hb1 : WF b1) (hb0 : WF b0)
+    (hn : Bn 0 ≤ 2 * val b1) (hlt : val a2 * Bn 0 + val a1 < val b1 * Bn 0 + val b0) :
+    Div32Ok (div_3_2 t a2 a1 a0 b1 b0) a2 a1 a0 b1 b0 := div_3_2_zero t a2 a1 a0 b1 b0 ha2 ha1 ha0 hb1 hb0 hn hlt
+
+/-- `div_3_2(q, r1, r0, a2, a1, a0, b1, b0)` at **every** level: for a normalised `b1` and `(a2,a1) < (b1,b0)`,
+    `(a2|a1|a0) = q·(b1|b0) + (r1|r0)` and `(r1|r0) < (b1|b0)` -/
+theorem div_3_2_exact (t : Nat) {n : Nat} (a2 a1 a0 b1 b0 : RU n)
     (ha2 : WF a2) (ha1 : WF a1) (ha0 : WF a0) (hb1 : WF b1) (hb0 : WF b0)
     (hn : Bn n ≤ 2 * val b1) (hlt : val a2 * Bn n + val a1 < val b1 * Bn n + val b0) :
-    Div32Ok (div_3_2 t a2 a1 a0 b1 b0) a2 a1 a0 b1 b0 :=
-  (div_family_of_limb t H0 n).2 a2 a1 a0 b1 b0 ha2 ha1 ha0 hb1 hb0 hn hlt
+    WF (div_3_2 t a2 a1 a0 b1 b0).1 ∧ WF (div_3_2 t a2 a1 a0 b1 b0).2.1 ∧ WF (div_3_2 t a2 a1 a0 b1 b0).2.2 ∧
+    (val a2 * Bn n + val a1) * Bn n + val a0
+      = val (div_3_2 t a2 a1 a0 b1 b0).1 * (val b1 * Bn n + val b0)
+        + (val (div_3_2 t a2 a1 a0 b1 b0).2.1 * Bn n + val (div_3_2 t a2 a1 a0 b1 b0).2.2) ∧
+    val (div_3_2 t a2 a1 a0 b1 b0).2.1 * Bn n + val (div_3_2 t a2 a1 a0 b1 b0).2.2 < val b1 * Bn n + val b0 :=
+  (div_family t n).2 a2 a1 a0 b1 b0 ha2 ha1 ha0 hb1 hb0 hn hlt
 
-/-- `div_2_1` at every level, given the limb-level specialisation of `div_3_2` -/
-theorem div_2_1_exact_partial (t : Nat) (H0 : Div32Limb t) {n : Nat} (ah al b : RU n) (hah : WF ah) (hal : WF al) (hb : WF b)
-    (hn : Bn n ≤ 2 * val b) (hlt : val ah < val b) : Div21Ok (div_2_1 t ah al b) ah al b :=
-  (div_family_of_limb t H0 n).1 ah al b hah hal hb hn hlt
+/-- `div_2_1(q, r, ah, al, b)` at **every** level: for a normalised `b` and `ah < b`, `(ah|al) = q·b + r ∧ r < b` -/
+theorem div_2_1_exact (t : Nat) {n : Nat} (ah al b : RU n) (hah : WF ah) (hal : WF al) (hb : WF b)
+    (hn : Bn n ≤ 2 * val b) (hlt : val ah < val b) :
+    WF (div_2_1 t ah al b).1 ∧ WF (div_2_1 t ah al b).2 ∧
+    val ah * Bn n + val al = val (div_2_1 t ah al b).1 * val b + val (div_2_1 t ah al b).2 ∧ val (div_2_1 t ah al b).2 < val b :=
+  (div_family t n).1 ah al b hah hal hb hn hlt
+
+/-- `normalization(d, b)` for `b ≠ 0`: the shift count that brings the highest set bit to the top -/
+theorem normalization_exact {n : Nat} (b : RU n) (hb : WF b) (hne : val b ≠ 0) :
+    normalization b < bits n ∧ Bn n ≤ 2 * (val b * 2 ^ normalization b) ∧ val b * 2 ^ normalization b < Bn n :=
+  normalization_ok b hb hne
+
+/-- `div(q, r, a, b)`, `/`, `%`, `div_q`, `div_r` for **every** divisor `b ≠ 0` at every level (normalisation shift, `div_2_1`,
+    shift back): `a = q·b + r`, `0 ≤ r < b` -/
+theorem div_exact (t : Nat) {n : Nat} (a b : RU n) (ha : WF a) (hb : WF b) (hne : val b ≠ 0) :
+    WF (div t a b).1 ∧ WF (div t a b).2 ∧ val a = val (div t a b).1 * val b + val (div t a b).2 ∧ val (div t a b).2 < val b :=
+  div_ok t a b ha hb hne
+
+/-- hence the quotient and remainder are GMP's: `q = ⌊a/b⌋`, `r = a mod b` -/
+theorem div_exact_values (t : Nat) {n : Nat} (a b : RU n) (ha : WF a) (hb : WF b) (hne : val b ≠ 0) :
+    val (div t a b).1 = val a / val b ∧ val (div t a b).2 = val a % val b := by
+  obtain ⟨-, -, he, hlt⟩ := div_ok t a b ha hb hne
+  have hr : val (div t a b).2 = val a % val b := mod_unique (by rw [he, Nat.mul_comm]) hlt
+  refine ⟨?_, hr⟩
+  have hpos : 0 < val b := Nat.pos_of_ne_zero hne
+  have h2 := Nat.div_add_mod (val a) (val b)
+  rw [← hr] at h2
+  have : val b * (val a / val b) = val b * val (div t a b).1 := by rw [Nat.mul_comm (val b) (val (div t a b).1)]; omega
+  exact (Nat.eq_of_mul_eq_mul_left hpos this).symm
+
+/-- `mod_n(a, const ruint<K+1>& b, n)` (the reduction used by `exp_mod`, `inv_mod`, `bezout_mod`): `b mod n` for every `n ≠ 0` -/
+theorem mod_n_exact (t : Nat) {n : Nat} (b : RU (n+1)) (m : RU n) (hb : WF b) (hm : WF m) (hne : val m ≠ 0) :
+    WF (mod_n2 t b m) ∧ val (mod_n2 t b m) = val b % val m := mod_n2_ok t b m hb hm hne
+
+/-! ### rushift.h: shifts by every count -/
+/-- `left_shift(b, a, d)`, `a << d`, `a <<= d` for **every** count `d` (0, 1, below / at / above half the width, the width and
+    beyond): `b = a·2^d mod 2^bits` -/
+theorem left_shift_exact {n : Nat} (a : RU n) (d : Nat) (ha : WF a) :
+    WF (left_shift a d) ∧ val (left_shift a d) = (val a * 2 ^ d) % Bn n := (shift_ok n a d ha).1
+
+/-- `right_shift(b, a, d)`, `a >> d`, `a >>= d`, `right_shift(r, r, d)` for every count: `b = ⌊a / 2^d⌋` -/
+theorem right_shift_exact {n : Nat} (a : RU n) (d : Nat) (ha : WF a) :
+    WF (right_shift a d) ∧ val (right_shift a d) = val a / 2 ^ d := (shift_ok n a d ha).2
+
+/-- `left_shift(ruint<K+1>& b, const ruint<K>& a, d)`: the widening shift -/
+theorem left_shift_wide_exact {n : Nat} (a : RU n) (d : Nat) (ha : WF a) :
+    WF (left_shift_x a d) ∧ val (left_shift_x a d) = (val a * 2 ^ d) % Bn (n+1) := left_shift_x_ok a d ha
+
+/-- `|`, `|=`: bitwise or of the values -/
+theorem or_exact {n : Nat} (x y : RU n) (hx : WF x) (hy : WF y) : WF (lor x y) ∧ val (lor x y) = val x ||| val y := lor_ok x y hx hy
 
 example : ∃ (ah al b : RU 1), WF ah ∧ WF al ∧ WF b ∧ Bn 1 ≤ 2 * val b ∧ val ah < val b :=
   ⟨zero 1, zero 1, ones 1, by simp [zero, WF, B64], by simp [zero, WF, B64], by simp [ones, WF, B64],
    by simp [ones, val, Bn, bits, B64], by simp [ones, zero, val, Bn, bits, B64]⟩
+
+/-! ### ruconvert.h / rconvert.h: conversion to and from big integers is lossless -/
+/-- ruint: `ruint_to_mpz(mpz_to_ruint(z)) = z mod 2^bits` for **every** integer `z` (a negative `z` is stored as its two's
+    complement: the code accepts it) -/
+theorem convert_roundtrip (n : Nat) (z : Int) :
+    WF (mpz_to_ruint n z) ∧ ruint_to_mpz (mpz_to_ruint n z) = z % (Bn n : Int) := by
+  have h := mpz_to_ruint_ok n z
+  exact ⟨h.1, by rw [ruint_to_mpz_ok, h.2]⟩
+
+/-- ruint: lossless on the type's range -/
+theorem convert_roundtrip_in_range (n : Nat) (z : Int) (h0 : 0 ≤ z) (h1 : z < Bn n) :
+    ruint_to_mpz (mpz_to_ruint n z) = z := by
+  rw [(convert_roundtrip n z).2, Int.emod_eq_of_lt h0 h1]
+
+/-- ruint, the other direction: every well-formed value survives the trip through a big integer -/
+theorem convert_back_roundtrip {n : Nat} (b : RU n) (hb : WF b) : val (mpz_to_ruint n (ruint_to_mpz b)) = val b := by
+  rw [ruint_to_mpz_ok]
+  have h := (mpz_to_ruint_ok n (val b : Int)).2
+  rw [Int.emod_eq_of_lt (by omega) (by exact_mod_cast val_lt b hb)] at h
+  exact_mod_cast h
+
+/-- rint: `rint_to_mpz(mpz_to_rint(z))` is the two's-complement reading of `z mod 2^bits`, for every integer `z` -/
+theorem convert_roundtrip_signed (n : Nat) (z : Int) :
+    rint_to_mpz (mpz_to_rint n z) =
+      if 2 * (z % (Bn n : Int)) < Bn n then z % (Bn n : Int) else z % (Bn n : Int) - Bn n := by
+  have h := mpz_to_rint_ok n z
+  rw [rint_to_mpz_ok _ h.1]
+  unfold sval
+  have e : (2 * val (mpz_to_rint n z) < Bn n) ↔ (2 * (z % (Bn n : Int)) < Bn n) := by rw [← h.2]; omega
+  by_cases hc : 2 * val (mpz_to_rint n z) < Bn n
+  · rw [if_pos hc, if_pos (e.mp hc), h.2]
+  · rw [if_neg hc, if_neg (fun h' => hc (e.mpr h')), h.2]
+
+/-- rint: lossless on the type's range `[-2^(bits-1), 2^(bits-1))` -/
+theorem convert_roundtrip_signed_in_range (n : Nat) (z : Int) (h0 : -(Bn n : Int) ≤ 2 * z) (h1 : 2 * z < Bn n) :
+    rint_to_mpz (mpz_to_rint n z) = z := by
+  have hB : (0 : Int) < Bn n := by exact_mod_cast Bn_pos n
+  rw [convert_roundtrip_signed]
+  by_cases hz : 0 ≤ z
+  · rw [Int.emod_eq_of_lt hz (by omega), if_pos h1]
+  · have e : z % (Bn n : Int) = z + Bn n := by
+      rw [← Int.add_mul_emod_self_right z 1 (Bn n : Int), Int.one_mul]; exact Int.emod_eq_of_lt (by omega) (by omega)
+    rw [e, if_neg (by omega)]; omega
+
+example : ∃ z : Int, -(Bn 2 : Int) ≤ 2 * z ∧ 2 * z < Bn 2 ∧ z < 0 := ⟨-1, by simp [Bn, bits], by simp [Bn, bits], by decide⟩
+
+/-! ### rugcd.h, ruinvmod.h, ruexp.h, rmgmodule.h -/
+/-- `gcd(a, b, c)`: Euclid's loop returns `gcd(b, c)` (the model's fuel `2·bits + 2` always suffices: the product of the two
+    running operands at least halves at every iteration) -/
+theorem gcd_exact (t : Nat) {n : Nat} (a b : RU n) (ha : WF a) (hb : WF b) :
+    WF (gcd t a b) ∧ val (gcd t a b) = Nat.gcd (val a) (val b) := gcd_ok t a b ha hb
+
+/-- `inv_mod(a, b, c)` for every modulus `c ≠ 0` and every `b` coprime to `c`: `0 ≤ a < c` and `a·b ≡ 1 (mod c)`, i.e. the value
+    `mpz_invert` returns (cofactor updates with negation, carry and conditional subtraction; non-invertible `b` is outside the contract) -/
+theorem inv_mod_exact (t : Nat) {n : Nat} (b c : RU n) (hb : WF b) (hc : WF c) (hne : val c ≠ 0) (hcop : Nat.gcd (val b) (val c) = 1) :
+    WF (inv_mod t b c) ∧ val (inv_mod t b c) < val c ∧ (val (inv_mod t b c) * val b) % val c = 1 % val c :=
+  inv_mod_ok t b c hb hc hne hcop
+
+/-- `exp_mod(a, b, c, n)` with a `ruint` exponent: `b^c mod n` for every modulus `n ≠ 0` (including `n = 1` and `c = 0`) -/
+theorem exp_mod_exact (t : Nat) {n : Nat} (b c m : RU n) (hb : WF b) (hc : WF c) (hm : WF m) (hne : val m ≠ 0) :
+    WF (exp_mod t b c m) ∧ val (exp_mod t b c m) = val b ^ val c % val m := exp_mod_ok t b c m hb hc hm hne
+
+/-- `exp_mod(a, b, const T& c, n)` with an unsigned word exponent -/
+theorem exp_mod_word_exact (t : Nat) {n : Nat} (b : RU n) (c : Nat) (m : RU n) (hb : WF b) (hc : c < B64) (hm : WF m) (hne : val m ≠ 0) :
+    WF (exp_mod_l t b c m) ∧ val (exp_mod_l t b c m) = val b ^ c % val m := exp_mod_l_ok t b c m hb hc hm hne
+
+/-- `arazi_qi(u, a)` for odd `a`: `u·a ≡ 1 (mod 2^bits)` (the code defines `u = inv(a)`; `init_module` passes `-p` to obtain `-inv(p)`).
+    Limb base case by the telescoping product `(1-x)(1+x)(1+x²)…(1+x³²) = 1 - x⁶⁴` in `ZMod 2⁶⁴`, lifting step by ring identities -/
+theorem arazi_qi_exact (t : Nat) {n : Nat} (a : RU n) (ha : WF a) (hodd : val a % 2 = 1) :
+    WF (arazi_qi t a) ∧ (val (arazi_qi t a) * val a) % Bn n = 1 := arazi_qi_ok t a ha hodd
+
+example : ∃ (b c : RU 1), WF b ∧ WF c ∧ val c ≠ 0 ∧ Nat.gcd (val b) (val c) = 1 ∧ val c % 2 = 1 :=
+  ⟨zero 1, ofLimb 1 1, by simp [zero, WF, B64], by simp [ofLimb, zero, WF, B64], by simp [ofLimb, zero, val],
+   by simp [ofLimb, zero, val], by simp [ofLimb, zero, val]⟩
 
 -- non-vacuity: well-formed operands exist at a recursive level, and the carries really occur
 example : ∃ b c : RU 2, WF b ∧ WF c ∧ (add b c).2 = true :=
